@@ -89,7 +89,8 @@ HISTORY.update({
     "b3_C12_3": "caught as built",
     "b3_C13_1": "missed as built (squares were compared, hiding the sign); J5 now demands a manifestly non-negative area element for two-component regions (patch rebased onto fix 94f7f9a)",
     "b3_C13_2": "caught as built (C12)", "b3_C13_3": "missed as built; J2/J5 evaluated with parameter-free integrands and dependent limits (patch rebased onto fix 94f7f9a)",
-    "b3_C14_1": "caught as built", "b3_C14_2": "REFUSED (exit 2) now, missed as built: a new differentiation hook (_eval_derivative_n_times) is not decided; the check refuses instead of passing",
+    "b3_C14_1": "caught as built", "b3_C14_2": "missed as built, then refused (a differentiation hook other than _eval_derivative ended the run with exit 2); caught after R3 learnt to evaluate "
+                "_eval_derivative_n_times for orders 2 and 3 on generic, constant and linear operands",
     "b3_C14_3": "caught as built (C09-N1)",
     "b3_C15_1": "refused as built (exit 2: id() outside the evaluator's subset); rule C15-X7 added (the demonstration relied on CPython handing a dead point's address to the "
                 "very next allocation, which stopped happening after fix f48be70 changed convert.py; it now searches for an address collision: demo.original.py kept)", "b3_C15_2": "caught as built",
